@@ -66,7 +66,7 @@ def in_child(fn, kill_at=None, base=None):
     return pickle.loads(data)
 
 
-def evaluate(wsdir, modname, extmod, internal, data, cache, entry_fun="f0"):
+def evaluate(wsdir, modname, extmod, internal, data, cache, entry_fun="f0", top_path=None):
     def fn():
         import importlib
         import linecache
@@ -80,11 +80,13 @@ def evaluate(wsdir, modname, extmod, internal, data, cache, entry_fun="f0"):
         dds.accept_module(modname)
         mod = importlib.import_module(modname)
         dds.set_store("local", internal_dir=internal, data_dir=data, cache_objects=cache)
+        if top_path:
+            return dds.keep(top_path, getattr(mod, entry_fun))
         return dds.eval(getattr(mod, entry_fun))
     return fn
 
 
-def recover(wsdir, modname, extmod, internal, data, paths, entry_fun="f0"):
+def recover(wsdir, modname, extmod, internal, data, paths, entry_fun="f0", top_path=None):
     def fn():
         import importlib
         import linecache
@@ -105,7 +107,7 @@ def recover(wsdir, modname, extmod, internal, data, paths, entry_fun="f0"):
             except BaseException as e:
                 loads[p] = ("exc", "%s: %s" % (type(e).__name__, str(e)[:120]))
         try:
-            v = ("ok", dds.eval(getattr(mod, entry_fun)))
+            v = ("ok", dds.keep(top_path, getattr(mod, entry_fun)) if top_path else dds.eval(getattr(mod, entry_fun)))
         except BaseException as e:
             v = ("exc", "%s: %s" % (type(e).__name__, str(e)[:160]))
         loads2 = {}
@@ -179,12 +181,13 @@ def requests_of(trace):
 
 def scenarios(rng, thorough):
     out = []
-    n = 10 if thorough else 3
+    n = 12 if thorough else 4
     for i in range(n):
-        w = progs.gen_chain_world(rng) if i % 3 == 2 else progs.gen_world(rng, nfun=rng.randint(2, 4), allow=("call", "keep", "datafn"))
+        w = progs.gen_chain_world(rng) if i % 4 == 2 else progs.gen_world(rng, nfun=rng.randint(2, 4), allow=("call", "keep", "datafn"))
         for f in w["funs"]:
             f["uses_ext"] = False
-        kind = ["first", "rekeep", "first_cached"][i % 3]
+        # rekeep_top: the evaluated function is itself kept (dds.keep at top level) and keeps other paths inside
+        kind = ["first", "rekeep", "first_cached", "rekeep_top"][i % 4]
         out.append((kind, w))
     return out
 
@@ -204,27 +207,32 @@ def run(ctx):
             cache = 3 if kind == "first_cached" else None
             w_new = w
             old_paths = {}
-            if kind == "rekeep":
+            top = "/top6/result" if kind == "rekeep_top" else None
+            if kind in ("rekeep", "rekeep_top"):
                 w_new = copy.deepcopy(w)
                 kept = [fn for (_, fn) in progs.kept_paths(w)]
                 for f in w_new["funs"]:
                     if f["name"] == kept[-1]:
                         f["tag"] = progs.bump_tag(f["tag"])
-                _, old_paths = plain_values(w)
+                old_value, old_paths = plain_values(w)
+                if top:
+                    old_paths = dict(old_paths, **{top: old_value})
             new_value, new_paths = plain_values(w_new)
+            if top:
+                new_paths = dict(new_paths, **{top: new_value})
             # template state: for 'rekeep' the store already holds the evaluation of the old code
             template = os.path.join(tmp, "template")
             os.makedirs(template)
-            if kind == "rekeep":
+            if kind in ("rekeep", "rekeep_top"):
                 write_world(ws, modname, extmod, w)
-                st = in_child(evaluate(ws, modname, extmod, template + "/internal", template + "/data", None))
+                st = in_child(evaluate(ws, modname, extmod, template + "/internal", template + "/data", None, top_path=top))
                 if st[0] != "ok":
                     raise common.Infra("setup evaluation failed: %s" % (st,))
             write_world(ws, modname, extmod, w_new)
             # count the operations of the uncrashed request
             run0 = os.path.join(tmp, "run0")
             shutil.copytree(template, run0, symlinks=True)
-            full = in_child(evaluate(ws, modname, extmod, run0 + "/internal", run0 + "/data", cache), kill_at=None, base=run0)
+            full = in_child(evaluate(ws, modname, extmod, run0 + "/internal", run0 + "/data", cache, top_path=top), kill_at=None, base=run0)
             if full[0] != "ok":
                 res.violations.append({"what": "evaluation fails even without a crash: %s" % (full[1],),
                                        "input": {"scenario": kind, "source": progs.render_world(w_new, "extmod")}, "kf": None})
@@ -241,9 +249,9 @@ def run(ctx):
                 shutil.copytree(template, d, symlinks=True)
                 # links in the template point into the template: re-point them into this copy
                 _repoint(d, template)
-                st = in_child(evaluate(ws, modname, extmod, d + "/internal", d + "/data", cache), kill_at=k, base=d)
+                st = in_child(evaluate(ws, modname, extmod, d + "/internal", d + "/data", cache, top_path=top), kill_at=k, base=d)
                 observed.append(observe(d))
-                rec = in_child(recover(ws, modname, extmod, d + "/internal", d + "/data", sorted(old_paths)))
+                rec = in_child(recover(ws, modname, extmod, d + "/internal", d + "/data", sorted(set(old_paths) | set(new_paths)), top_path=top))
                 res.evaluations += 1
                 res.nontrivial("%d %s k%d %s" % (si, kind, k, full[2][k][0] if k < nops else "end"))
                 case = {"scenario": kind, "crash_before_operation": k, "operation": " ".join(full[2][k]) if k < nops else "(after the last one)",
@@ -254,6 +262,8 @@ def run(ctx):
                 else:
                     r = rec[1]
                     for p, (tag, v) in r["loads"].items():
+                        if tag != "ok" and p not in old_paths:
+                            continue          # never committed before the crash: may not resolve yet
                         if tag != "ok" or v not in (old_paths.get(p), new_paths.get(p)):
                             bad = "after the crash path %s (committed before) loads %r; old value %r, new value %r" % (p, v, old_paths.get(p), new_paths.get(p))
                     if bad is None and r["value"] != ("ok", new_value):
